@@ -70,3 +70,7 @@ Definition idx_ok (pbd:list Z) (k:Z) : Prop := - len pbd <= k < len pbd.
 
 Definition offsets_spec (pbd days:list Z) (fl:list bool) : list Z :=
   map (fun p => if (snd p : bool) then wrap_get pbd (fst p) else -1) (combine days fl).
+
+(* every flagged day is a legal numpy index of the map *)
+Definition offsets_pre (pbd days:list Z) (fl:list bool) : Prop :=
+  forall d, In (d, true) (combine days fl) -> idx_ok pbd d.
